@@ -32,6 +32,8 @@ def gen_inc():
     import tempfile
     g = os.path.join(tempfile.gettempdir(), "lpv_gen_%d" % os.getpid())
     os.makedirs(g, exist_ok=True)
+    import atexit, shutil
+    atexit.register(shutil.rmtree, g, True)
     with open(os.path.join(g, "version.h"), "w") as f:
         f.write("#pragma once\n#define LIBPOLY_VERSION_MAJOR 0\n#define LIBPOLY_VERSION_MINOR 0\n#define LIBPOLY_VERSION_PATCH 0\n")
     return ["-I" + g]
